@@ -91,6 +91,63 @@ func positionByCounting(o *Ob, pos *ssa.Function) bool {
 	return true
 }
 
+// positionBySortedNames: Position written over the list of member names: every member's name is
+// collected, the list is sorted as strings, and the own name is looked up in it from the front.
+func positionBySortedNames(o *Ob, pos *ssa.Function) bool {
+	e := o.E
+	var srt ssa.CallInstruction
+	for _, n := range []string{"sort.Strings", "slices.Sort"} {
+		if cs := e.Calls(pos, n); len(cs) == 1 {
+			srt = cs[0]
+		}
+	}
+	ms := e.Calls(pos, "(*github.com/hashicorp/memberlist.Memberlist).Members")
+	if srt == nil || len(ms) != 1 {
+		return false
+	}
+	mx := e.X(pos, ms[0].(*ssa.Call))
+	names := srt.Common().Args[0]
+	_, parts := e.AppendParts(names)
+	if len(parts) == 0 {
+		return false
+	}
+	o.Site(srt, "member names sorted")
+	var collect *Loop
+	for _, p := range parts {
+		o.Check(!p.Spread && e.X(pos, p.V) == mx+"[i].Name", "pos-less", "members must be ranked by name: the sorted list holds "+clip(e.X(pos, p.V)), p.Call)
+		l := e.LoopOf(p.Call)
+		if o.Check(l != nil && e.CoversAll(l, mx) && len(e.EarlyExits(l)) == 0 && !loopBackWithout(o, l, IsInstr(p.Call), nil), "pos-all", "every member's name must be in the sorted list", p.Call) {
+			collect = l
+		}
+	}
+	nx := e.X(pos, names)
+	found := LRe(`^\(\(\*am/cluster\.Peer\)\.Self\(recv\)\.Name == `+regexp.QuoteMeta(nx)+`\[i\]\)$|^\(`+regexp.QuoteMeta(nx)+`\[i\] == \(\*am/cluster\.Peer\)\.Self\(recv\)\.Name\)$`, true)
+	scans := 0
+	for _, l := range e.Loops(pos) {
+		if collect != nil && l.Header == collect.Header {
+			continue
+		}
+		scans++
+		o.LoopExitsGuarded(l, "pos-stop", "stopping the count before the own name was found", found)
+		o.Check(InstrDominates(srt, l.Header.Instrs[0]), "pos-sort-first", "the names must be sorted before the own position is looked up", srt)
+		c, kind := e.RangeOver(l)
+		o.Check(c == nx && kind == "index", "pos-scan", "the own name must be looked up from the front of the sorted list, the loop ranges over "+clip(c), srt)
+	}
+	o.Check(scans == 1, "pos-scan", "Position must look the own name up in the sorted list", srt)
+	for _, in := range AllInstrs(pos) {
+		ret, ok := in.(*ssa.Return)
+		if !ok {
+			continue
+		}
+		for _, a := range AltsOf(ret.Results[0]) {
+			v := e.X(pos, a.V)
+			o.Site(ret, "position may be "+clip(v))
+			o.Check(v == "i" || v == "len("+nx+")" || v == "len("+mx+")", "pos-result", "Position answers "+clip(v)+", not the index of the own name in the sorted list", ret)
+		}
+	}
+	return true
+}
+
 // drivesLoop: the loop's own exit test reads the variable (it is the index, not a tally).
 func drivesLoop(l *Loop, phi *ssa.Phi, step *ssa.BinOp) bool {
 	for _, b := range l.Fn.Blocks {
@@ -234,6 +291,10 @@ func init() {
 			}
 		}
 		pos := o.Fn("(*am/cluster.Peer).Position")
+		if len(e.Calls(pos, "sort.Slice")) == 0 && positionBySortedNames(o, pos) {
+			o.MinSites(3)
+			return
+		}
 		if len(e.Calls(pos, "sort.Slice")) == 0 && positionByCounting(o, pos) {
 			o.MinSites(3)
 			return
